@@ -86,6 +86,11 @@ func (c *Ctx) ruleSinkAck(rule string, fn *ssa.Function, lockClass string, write
 		fa := ftb.Of(format.Call.Args[1])
 		emptyPol, emptyFound := hasAtom(pa, func(at Atom) bool { return at.Op == "eq" && at.L.Is("Field", "Format") && at.R.Is("Const", `""`) })
 		okFmt := emptyFound && ((emptyPol && fa.Is("Const", `"json"`)) || (!emptyPol && fa.Is("Field", "Format"))) && ftb.Of(format.Call.Args[0]).IsParam(evParam)
+		// cmp.Or(fs.Format, "json"): the first non-zero argument — the configured format, or JSON when it is empty
+		if !okFmt && fa.Op == "Call" && strings.HasPrefix(fa.Name, "cmp.Or[") && len(fa.Args) == 1 && fa.Args[0].Op == "Varargs" && len(fa.Args[0].Args) == 2 &&
+			fa.Args[0].Args[0].Is("Field", "Format") && fa.Args[0].Args[1].Is("Const", `"json"`) && ftb.Of(format.Call.Args[0]).IsParam(evParam) {
+			okFmt = true
+		}
 		if !okFmt {
 			r.Bad(rule, p.ShortFn(fn)+":format", p.InstrPos(format), "the bytes are looked up under "+fa.String()+"; expected the configured format, or JSON when it is empty, of the event being processed")
 			continue
@@ -540,7 +545,7 @@ func (c *Ctx) rulePruneHandleClosed(rule string) {
 
 func runC13(c *Ctx) {
 	p, r := c.P, c.R
-	r.Explanation = "Decides on every path of the three stock sinks: writer.Sink and FileSink acknowledge (nil, nil) only after writing a reader over exactly the bytes Event.Format returned for the configured format (JSON when unset), once — or once more after rewinding the same reader when the first write failed — with the sink mutex held for writing, with the (last) write's error tested nil; a missing format or a failing write is an error; FileSink's /dev/null returns (nil, nil) without touching a file and stdout/stderr select os.Stdout/os.Stderr; ChannelSink.Process is one blocking select with exactly three arms — send of the very event parameter on the sink's channel -> (nil, nil), <-ctx.Done() -> (nil, ctx.Err()), <-time.After(timeout) -> (nil, non-nil) — no default and no other blocking instruction. Behaviour of the supplied io.Writer and real-time bounds are not decided. C13.ctor: NewChannelSink stores exactly its arguments after both guards. C13.format Format:reads-table: Event.Format answers from the format table itself, under Event.l. C13.recover: a recovered panic of a Writer reaches the error result. C13.file handle-closed: pruneFiles only where no path leaves a file open."
+	r.Explanation = "Decides on every path of the three stock sinks: writer.Sink and FileSink acknowledge (nil, nil) only after writing a reader over exactly the bytes Event.Format returned for the configured format (JSON when unset), once — or once more after rewinding the same reader when the first write failed — with the sink mutex held for writing, with the (last) write's error tested nil; a missing format or a failing write is an error; FileSink's /dev/null returns (nil, nil) without touching a file and stdout/stderr select os.Stdout/os.Stderr; ChannelSink.Process is one blocking select with exactly three arms — send of the very event parameter on the sink's channel -> (nil, nil), <-ctx.Done() -> (nil, ctx.Err()), <-time.After(timeout) -> (nil, non-nil) — no default and no other blocking instruction. Behaviour of the supplied io.Writer and real-time bounds are not decided. C13.ctor: NewChannelSink stores exactly its arguments after both guards. C13.format Format:reads-table: Event.Format answers from the format table itself, under Event.l. C13.recover: a recovered panic of a Writer reaches the error result. C13.file handle-closed: pruneFiles only where no path leaves a file open. C13.file nil-handle: the handle is dereferenced only where found non-nil."
 	r.NotDecided = []string{"behaviour of user-supplied io.Writers (short writes, buffering)", "real-time bounds of the timeout"}
 	c.lockControls()
 	// --- C13.writer
@@ -556,6 +561,10 @@ func runC13(c *Ctx) {
 		// an acknowledged write must be in a file that stays below Path: pruning never runs while the
 		// file being written is open (it matches the rotated-name pattern and could be the one removed)
 		c.rulePruneHandleClosed("C13.file")
+		// "returns an error instead when the underlying write fails": the retry on the stdout / stderr specials
+		// writes to the sink's nil handle and relies on *os.File refusing that with an error — a handle that is
+		// dereferenced where it may be nil (any use of an interface-typed handle) panics instead
+		c.ruleNilHandle("C13.file")
 		c.eNilRule("C13.file", fn, false)
 		// specials
 		nNull := 0
@@ -609,7 +618,7 @@ func runC13(c *Ctx) {
 		eachInstr(fn, func(in ssa.Instruction) {
 			if st, ok := in.(*ssa.Store); ok {
 				at, vt := tb.Of(st.Addr), tb.Of(st.Val)
-				if b, ok := at.IsFieldAddr("BytesWritten"); ok && b.IsParam("0:fs") && vt.Op == "Bin" && vt.Name == "+" && vt.Args[0].Is("Field", "BytesWritten") && vt.Args[1].Op == "Extract" && vt.Args[1].Name == "0" && vt.Args[1].Args[0].Name == "(*bytes.Reader).WriteTo" {
+				if b, ok := at.IsFieldAddr("BytesWritten"); ok && b.IsParam("0:fs") && vt.Op == "Bin" && vt.Name == "+" && vt.Args[0].Is("Field", "BytesWritten") && isWriteCount(vt.Args[1]) {
 					okCount = true
 				}
 			}
@@ -901,7 +910,7 @@ func runC14(c *Ctx) {
 			r.Check(okSt, "C14.store", recv+":store", p.InstrPos(fas[0].In), "e.FormattedAs(\"json\", buf.Bytes()) with the encoder's own private buffer, only after Encode succeeded", "the formatted bytes are not stored as FormattedAs(\"json\", bytes of the private buffer the encoder wrote)")
 			if !isNilConst(rv[0]) {
 				nFwd++
-				if !ftb.Of(rv[0]).IsParam("2:e") {
+				if !ftb.Of(rv[0]).IsParam("2:e") && !forwardsArgOnly(p, rv[0], func(a ssa.Value) bool { return ftb.Of(a).IsParam("2:e") }) {
 					r.Bad("C14.store", recv+":forward", p.InstrPos(pa.End), "the formatter forwards something other than its event parameter")
 				}
 			}
@@ -952,7 +961,22 @@ func runC14(c *Ctx) {
 			continue
 		}
 		rows := map[string]bool{}
-		for _, pa := range c.enum("C14.pred", fn, PathOpts{}) {
+		// (a shared "ask the predicate" helper of the package, and a func literal adapting one predicate type
+		// to the other, are followed)
+		predHelper := func(caller *ssa.Function, call *ssa.Call, callee *ssa.Function) bool {
+			if PkgPathOf(callee) != PkgRoot || len(callee.Blocks) > 12 || len(loopHeaders(callee)) > 0 {
+				return false
+			}
+			if callee.Parent() != nil {
+				return true
+			}
+			if recv := callee.Signature.Recv(); recv != nil {
+				_, isFunc := recv.Type().Underlying().(*types.Signature)
+				return isFunc
+			}
+			return false
+		}
+		for _, pa := range c.enum("C14.pred", fn, PathOpts{Inline: predHelper, InlineClosures: true, InlineDepth: 3}) {
 			rv := pa.RetVals()
 			if rv == nil {
 				continue
@@ -1935,7 +1959,7 @@ func runC15(c *Ctx) {
 		eachInstr(fn, func(in ssa.Instruction) {
 			if st, ok := in.(*ssa.Store); ok {
 				at, vt := tb.Of(st.Addr), tb.Of(st.Val)
-				if b, ok := at.IsFieldAddr("BytesWritten"); ok && b.IsParam("0:fs") && vt.Op == "Bin" && vt.Name == "+" && vt.Args[0].Is("Field", "BytesWritten") && vt.Args[1].Op == "Extract" && vt.Args[1].Name == "0" && vt.Args[1].Args[0].Name == "(*bytes.Reader).WriteTo" {
+				if b, ok := at.IsFieldAddr("BytesWritten"); ok && b.IsParam("0:fs") && vt.Op == "Bin" && vt.Name == "+" && vt.Args[0].Is("Field", "BytesWritten") && isWriteCount(vt.Args[1]) {
 					okCount = true
 				}
 			}
@@ -2063,7 +2087,7 @@ func (c *Ctx) ruleRotationInputWriters(rule string) {
 				ok2 = true
 			case f.Name() == "open" && nm == "LastCreated" && v.Op == "Call" && v.Name == "time.Now":
 				ok2 = true
-			case nm == "BytesWritten" && v.Op == "Bin" && v.Name == "+" && v.Args[0].Is("Field", "BytesWritten") && v.Args[1].Op == "Extract" && v.Args[1].Args[0].Name == "(*bytes.Reader).WriteTo":
+			case nm == "BytesWritten" && v.Op == "Bin" && v.Name == "+" && v.Args[0].Is("Field", "BytesWritten") && isWriteCount(v.Args[1]):
 				ok2 = true
 			case nm == "BytesWritten" && countingHelper(f):
 				// the sink's counting helper: every call site hands it the count of a write
@@ -2165,4 +2189,63 @@ func countingHelper(f *ssa.Function) bool {
 		}
 	}
 	return ok && stores == 1 && calls == 0
+}
+
+// forwardsArgOnly: v is result 0 of a call of a function of the module that returns, as its first
+// result, either nil or one (and always the same) of its own parameters — and the argument passed
+// for that parameter satisfies isEvent.
+func forwardsArgOnly(p *Prog, v ssa.Value, isEvent func(ssa.Value) bool) bool {
+	ex, ok := v.(*ssa.Extract)
+	if !ok || ex.Index != 0 {
+		return false
+	}
+	call, ok := ex.Tuple.(*ssa.Call)
+	if !ok {
+		return false
+	}
+	sc := call.Call.StaticCallee()
+	if sc == nil || sc.Blocks == nil || !p.InRepo(sc) {
+		return false
+	}
+	idx := -1
+	for _, ret := range Returns(sc) {
+		rv := RetVals(ret)
+		if len(rv) == 0 {
+			return false
+		}
+		if isNilConst(rv[0]) {
+			continue
+		}
+		k := -1
+		for i, prm := range sc.Params {
+			if rv[0] == ssa.Value(prm) {
+				k = i
+			}
+		}
+		if k < 0 || (idx >= 0 && idx != k) {
+			return false
+		}
+		idx = k
+	}
+	return idx >= 0 && idx < len(call.Call.Args) && isEvent(call.Call.Args[idx])
+}
+
+// isWriteCount: the byte count of a write — result 0 of (*bytes.Reader).WriteTo, or a merge of such
+// counts (first attempt / retry; which one a path adds is decided path-sensitively by count-every-ack).
+func isWriteCount(t *Term) bool {
+	if t == nil {
+		return false
+	}
+	if t.Op == "Extract" && t.Name == "0" && len(t.Args) == 1 && t.Args[0].Name == "(*bytes.Reader).WriteTo" {
+		return true
+	}
+	if t.Op == "Phi" && len(t.Args) > 0 {
+		for _, a := range t.Args {
+			if !isWriteCount(a) {
+				return false
+			}
+		}
+		return true
+	}
+	return false
 }
